@@ -1,0 +1,20 @@
+//go:build verif
+
+package msgpacker
+
+// Verification hooks (build tag "verif" only): the memory protector is a process-wide
+// singleton whose limit is fixed by the first NewPacker call; the harness needs to start
+// every case from a known state and to read the counter.
+
+func VerifResetMemoryProtector(max int) {
+	memoryCheck.lock.Lock()
+	defer memoryCheck.lock.Unlock()
+	memoryCheck.max = max
+	memoryCheck.current = 0
+}
+
+func VerifMemoryCurrent() int {
+	memoryCheck.lock.RLock()
+	defer memoryCheck.lock.RUnlock()
+	return memoryCheck.current
+}
